@@ -119,6 +119,50 @@ def is_codeword(word: Sequence[int], mask: Sequence[int] = (0, 0, 0)) -> bool:
     return len(word) == N and syndromes(unmask(word, mask)) == [0, 0, 0]
 
 
+def inv(a: int) -> int:
+    assert a != 0
+    return power(a, 254)
+
+
+def solve_linear(cols: Sequence[Sequence[int]], rhs: Sequence[int]):
+    """x with sum_j x[j] * cols[j] == rhs over GF(2^8) (n columns of length n, Gauss-Jordan); None if singular."""
+    n = len(rhs)
+    a = [[cols[j][i] for j in range(n)] + [rhs[i]] for i in range(n)]
+    for c in range(n):
+        piv = next((r for r in range(c, n) if a[r][c]), None)
+        if piv is None:
+            return None
+        a[c], a[piv] = a[piv], a[c]
+        k = inv(a[c][c])
+        a[c] = [mul(k, v) for v in a[c]]
+        for r in range(n):
+            if r != c and a[r][c]:
+                f = a[r][c]
+                a[r] = [v ^ mul(f, u) for v, u in zip(a[r], a[c])]
+    return [a[i][n] for i in range(n)]
+
+
+def steer_parity(msg: Sequence[int], positions: Sequence[int], want: Sequence[int]) -> List[int]:
+    """Copy of the 9-symbol message with the symbols at three positions replaced so that rs_parity(result) == want
+    (parity is GF(2^8)-linear in the message; any three rows of the parity part of an MDS generator matrix are independent)."""
+    assert len(set(positions)) == 3
+    base = list(msg)
+    for p in positions:
+        base[p] = 0
+    rhs = [x ^ y for x, y in zip(want, rs_parity(base))]
+    cols = []
+    for p in positions:
+        e = [0] * K
+        e[p] = 1
+        cols.append(rs_parity(e))
+    x = solve_linear(cols, rhs)
+    assert x is not None, "three parity columns are dependent - not an MDS code?"
+    for p, v in zip(positions, x):
+        base[p] = v
+    assert rs_parity(base) == list(want)
+    return base
+
+
 def self_test():
     g = generator()
     assert g == [1, 14, 56, 64], g  # the standard prints g(x) = x^3 + 14 x^2 + 56 x + 64; here it is derived from the roots
@@ -131,6 +175,8 @@ def self_test():
     for m in ([1, 14, 0, 0, 0, 0, 0, 0, 0], [7, 200, 3, 0, 90, 1, 2, 3, 4]):
         assert division_trace(m)[0] == rs_parity(m)
     assert division_trace([1, 14, 0, 0, 0, 0, 0, 0, 0])[1] == [1] and register_top_after([1]) == 14
+    assert all(mul(a, inv(a)) == 1 for a in range(1, 256))
+    assert rs_parity(steer_parity([1, 2, 3, 4, 5, 6, 7, 8, 9], (0, 4, 8), [255, 255, 255])) == [255, 255, 255]
     # any 3 positions: the 3x3 matrix [alpha^(j*e_i)] is Vandermonde in distinct non-zero alpha^e_i -> every error of
     # 1..3 symbols has a non-zero syndrome; spot-check one pattern
     assert syndromes([0, 0, 5, 0, 0, 0, 0, 9, 0, 0, 0, 1]) != [0, 0, 0]
